@@ -3,10 +3,10 @@ package fixture
 import (
 	"context"
 	"encoding/base64"
-	"strconv"
 	"fmt"
 	"net"
 	"sort"
+	"strconv"
 	"strings"
 	"sync"
 
@@ -174,6 +174,21 @@ func (d *GNMIDevice) Set(ctx context.Context, req *gnmi.SetRequest) (*gnmi.SetRe
 	return rsp, nil
 }
 
+// PresenceContainers (set by the checks): paths of the fixture schema's presence containers. A device creates the
+// container when a node below it is written, and keeps it when that node is deleted again.
+var PresenceContainers = map[string]bool{}
+
+func markContainers(cfg map[string]string, leaf string) {
+	p := model.Parse(leaf)
+	for i := 1; i < len(p); i++ {
+		if anc := p[:i].String(); PresenceContainers[anc] {
+			if _, ok := cfg[anc]; !ok {
+				cfg[anc] = "EMPTY"
+			}
+		}
+	}
+}
+
 // ApplyGNMISet applies a SetRequest the way a device does: deletes, then replaces, then updates.
 func ApplyGNMISet(before map[string]string, req *gnmi.SetRequest) (map[string]string, error) {
 	cfg := copyMap(before)
@@ -203,6 +218,7 @@ func ApplyGNMISet(before map[string]string, req *gnmi.SetRequest) (map[string]st
 				return fmt.Errorf("update of %s: %v", base, err)
 			}
 			cfg[base.String()] = lex
+			markContainers(cfg, base.String())
 			for kp, kv := range base.KeyLeaves() {
 				cfg[kp] = kv
 			}
@@ -214,6 +230,7 @@ func ApplyGNMISet(before map[string]string, req *gnmi.SetRequest) (map[string]st
 		}
 		for k, v := range leaves {
 			cfg[k] = v
+			markContainers(cfg, k)
 		}
 		for kp, kv := range base.KeyLeaves() {
 			cfg[kp] = kv
